@@ -49,6 +49,11 @@ type stringerT struct{ s string }
 
 func (x stringerT) String() string { return x.s }
 
+// a value whose only text form is the library's own ToString interface
+type toStringT struct{ s string }
+
+func (x toStringT) ToString(args ...any) string { return x.s }
+
 // a value whose only text form is encoding.TextMarshaler (no String, no Error): the text formats print the marshalled text
 type textMarshT struct{ s string }
 
@@ -85,6 +90,8 @@ func (v GVal) Go() any {
 		return v.S
 	case "stringer":
 		return stringerT{v.S}
+	case "tostring":
+		return toStringT{v.S}
 	case "textm": // corpus of the text formats (logfmt and colour) only: an encoding.TextMarshaler
 		return textMarshT{v.S}
 	case "level":
@@ -216,7 +223,7 @@ func (v GVal) Coq() string {
 	switch v.Kind {
 	case "nil":
 		return "VNil"
-	case "string", "stringer", "textm": // (textm occurs in the text formats only: quoted like a string since /repo 71337b7)
+	case "string", "stringer", "tostring", "textm": // (textm occurs in the text formats only: quoted like a string since /repo 71337b7)
 		return "(VStr " + cStr(v.S) + ")"
 	case "level":
 		return "(VStr " + cStr(levelName(v.I)) + ")"
@@ -413,7 +420,7 @@ func typedAttr(key string, v GVal) slog.Attr {
 }
 
 // ---- generator ----
-var leafKinds = []string{"nil", "string", "stringer", "level", "error", "bool", "int", "int8", "int16", "int32", "int64",
+var leafKinds = []string{"nil", "string", "stringer", "tostring", "level", "error", "bool", "int", "int8", "int16", "int32", "int64",
 	"uint", "uint8", "uint16", "uint32", "uint64", "float32", "float64", "complex64", "complex128", "duration", "time",
 	"bytes", "struct", "map", "strs", "bools", "ints", "int64s", "uint64s", "uint16s", "float64s", "durs", "times", "int8s", "int16s", "int32s", "uints", "uint32s"}
 
@@ -505,7 +512,7 @@ func genLeaf(r *Rng, p EncProfile, kind string) GVal {
 	}
 	ints := []int64{0, 1, -1, 127, -128, 255, 32767, -32768, 1 << 31, -(1 << 31), 1<<63 - 1, -1 << 63, 42, 1234567890123}
 	switch kind {
-	case "string", "stringer", "error", "bytes":
+	case "string", "stringer", "tostring", "error", "bytes":
 		v.S = txt()
 	case "level":
 		v.I = int64([]int{0, 3, 4, 8, 11, 42}[r.Intn(6)])
